@@ -332,6 +332,7 @@ func num(v interface{}) (int64, bool) {
 }
 
 type RelSummary struct {
+	Keys []string    `json:"keys"` // keys present in the marshalled entry, sorted
 	ID   int         `json:"id"`
 	Role string      `json:"role"`
 	Tags [][2]string `json:"tags"`
@@ -425,8 +426,12 @@ func (p profile) abstract(gj []byte) []Feat {
 				if arr, ok := v.([]interface{}); ok {
 					f.HasRels = true
 					for _, x := range arr {
-						rs := RelSummary{ID: -1, Tags: [][2]string{}}
+						rs := RelSummary{ID: -1, Tags: [][2]string{}, Keys: []string{}}
 						if m, ok := x.(map[string]interface{}); ok {
+							for k := range m {
+								rs.Keys = append(rs.Keys, k)
+							}
+							sort.Strings(rs.Keys)
 							rs.ID = p.unID("relation", m["id"])
 							rs.Role, _ = m["role"].(string)
 							rs.Tags, _ = unTags(m["tags"])
